@@ -17,6 +17,7 @@ from vlib import ccorpus, jitlab
 ARCHS_C = ["x86_32", "x86_64", "arml", "armtl", "aarch64l", "mips32l", "mips32b", "ppc32b", "msp430"]
 ARCHS_T = ["x86_16", "mepl", "mepb"]
 PG = 0x100
+STEP_LIMIT = 5000        # runiter_once rounds per run; the programs execute < 2000 instructions
 MAPS_QUICK = ["rw", "rw2", "missing", "ro", "split", "split-ro", "split-missing", "bp"]
 MAPS_THOROUGH = MAPS_QUICK + ["ro-split", "split-aligned", "rw3"]
 
@@ -96,6 +97,7 @@ def build_scenario(case, backend, extra=None):
     bps = [["bp", b[0], b[1], b[2]] for b in case.get("bps", [])]
     scn["script"] = scn["script"][:1] + bps + scn["script"][1:]
     scn["log_mn"] = (backend == "python")
+    scn["step_limit"] = STEP_LIMIT
     if extra:
         scn.update(extra)
     return scn, arr_addr
@@ -246,7 +248,7 @@ def _hx(v):
 # ---------------------------------------------------------------------------------------------
 # planning
 
-QUICK_FUNCS = ["arith_store", "arr_loop", "switch4", "subword", "muldiv", "nested"]
+QUICK_FUNCS = ["arith_store", "arr_loop", "switch4", "subword", "muldiv"]
 
 
 def plan_units(tier):
@@ -276,7 +278,7 @@ def det_functions(arch, ngen):
 class C20(Check):
     pid = "C20"
     needs_build = True
-    rule = ("programs = clang-compiled C functions (quick: 6 fixed + 1 generated per architecture at -O1; thorough: "
+    rule = ("programs = clang-compiled C functions (quick: 5 fixed + 1 generated per architecture at -O1; thorough: "
             "13 fixed + 12 generated at -O0/-O1/-O2/-Os; x86_32/64, arml, armtl, aarch64l, mips32l/b, ppc32b, msp430) and hand-written templates (x86_16, "
             "mepl, mepb), each run on the python and gcc jitters under memory maps rw (2-3 input vectors), missing, "
             "read-only, split, split-ro, split-missing (+ro-split, split-aligned thorough) and once with two extra "
@@ -292,7 +294,9 @@ class C20(Check):
                    "log_mn is enabled on the python run only (to count executed instructions); it only prints",
                    "the two extra breakpoints are never put on a MIPS delay-slot instruction (splitting a block "
                    "there loses the branch in both backends: recorded under C21/C23)",
-                   "the host-compiled expected value is recorded as a counter, it is not part of the verdict"]
+                   "the host-compiled expected value is recorded as a counter, it is not part of the verdict",
+                   "a run is cut after 5000 runiter_once rounds ('step-limit' termination, a deterministic "
+                   "observation that is compared like any other)"]
     level_text = ("differential execution of generated and fixed machine-code programs on both available backends in "
                   "separate worker processes, including faulting memory maps")
     technique = "differential testing of two implementations on generated programs (compiled-C corpus + templates)"
@@ -404,6 +408,8 @@ class C20(Check):
                 funcs = [funcs_all[k] for k in ks]
                 self.run_c_group(lab, res, wd, arch, opt, funcs, maps, "d%d" % shard, None)
             # seeded supplement
+            if tier != "thorough" and shard % 2:
+                nrand = 0            # quick tier: one seeded program on every other shard
             for r in range(nrand):
                 arch = ARCHS_C[(shard + r * 5 + rng.randrange(len(ARCHS_C))) % len(ARCHS_C)]
                 opt = rng.choice(["-O0", "-O1", "-O2", "-Os"])
